@@ -145,3 +145,43 @@ func VerifC20TopLevel() {
 	verifAssert("defective-section-is-rejected-and-named", err != nil && strings.HasPrefix(err.Error(), keys[k]+": "))
 	verifReach("rejected-by-section")
 }
+
+// VerifC20Missing: a configuration in which one nested section is missing is rejected
+// with an error naming it, never with a crash.
+//
+//verif:harness name=H20f-missing tier=quick,thorough bounds="the valid head configuration with exactly one nested section absent, from {ratelimit.allowlist, .connection_limit, .ipv4, .ipv6, .quic, .tcp, upstream.healthcheck, upstream.fallback, cache.ttl_override, query_log.file, check.kv}" reach=reported
+//verif:assume sections from web onwards are outside this harness
+func VerifC20Missing() {
+	c := verifValidHead()
+	names := []string{"ratelimit: allowlist", "ratelimit: connection_limit", "ratelimit: ipv4", "ratelimit: ipv6", "ratelimit: quic", "ratelimit: tcp", "upstream: healthcheck", "upstream: fallback", "cache: ttl_override", "query_log: file", "check: kv"}
+	k := verifChoice(len(names))
+	switch k {
+	case 0:
+		c.RateLimit.Allowlist = nil
+	case 1:
+		c.RateLimit.ConnectionLimit = nil
+	case 2:
+		c.RateLimit.IPv4 = nil
+	case 3:
+		c.RateLimit.IPv6 = nil
+	case 4:
+		c.RateLimit.QUIC = nil
+	case 5:
+		c.RateLimit.TCP = nil
+	case 6:
+		c.Upstream.Healthcheck = nil
+	case 7:
+		c.Upstream.Fallback = nil
+	case 8:
+		c.Cache.TTLOverride = nil
+	case 9:
+		c.QueryLog.File = nil
+	case 10:
+		c.Check.RemoteKV = nil
+	}
+	var err error
+	panicked := verifCatch(func() { err = c.validate() })
+	verifAssert("missing-section-does-not-crash-validation", !panicked)
+	verifAssert("missing-section-is-reported-by-name", panicked || (err != nil && strings.HasPrefix(err.Error(), names[k]+": ")))
+	verifReach("reported")
+}
